@@ -465,6 +465,7 @@ def tfun_case(tag: str, body: Optional[str], attrs: List[Tuple[str, str]]) -> Ca
 SITE_TITLES = ["Tikka & Masala", "It's \"good\"", "x > y", "a < b", "R&D \"q\" 'single'", "50 # hash", "semi; colon=",
                "back\\slash", "日本のカレー", "Crème brûlée",
                "\U0001F35D pasta", "&amp; entity", "&lt;b&gt;", "</title><script>x</script>".replace("<", "＜").replace(">", "＞"),
+               "&amp;lt;i&amp;gt; literal", "AT&amp;amp;T", "&amp;#65; ref",      # entity-LIKE text: must be decoded exactly once
                "a  two  spaces", "tab\tin", "quote\" onmouseover=\"x", "apos' onmouseover='x", "Plain", "Zebra", "apple"]
 README_TITLES = ["{{ jinja }}", "{% block %} 100%", "{# comment #}", "&quot;quoted&quot; &#60;i&#62;"]   # source text
 SITE_DIRS = ["pasta", "Indian Mains", "sides&dips", "it's", 'say "hi"', "q?r", "a#b dir", "100%", "50%25 off",
